@@ -191,6 +191,36 @@ func (c02) build(c *mon.Ctx, workload string, i int64) c02Case {
 			return gt.Unary(gen.UnaryOps[c.R.Intn(3)], tree(d-1))
 		case 1:
 			return gt.Paren(tree(d - 1))
+		case 2:
+			// membership in a LIST LITERAL whose elements are probes: every
+			// element is evaluated, in order, exactly once, also after the
+			// needle has been found (two times in three the needle is in)
+			o := c02Operands[c.R.Intn(len(c02Operands))]
+			id++
+			needle := gt.Call("t", gt.Int(int64(id)), o.Lit())
+			var elems []*gt.T
+			for k := 1 + c.R.Intn(4); k > 0; k-- {
+				if c.R.Intn(3) == 0 {
+					elems = append(elems, tree(d-1))
+				} else {
+					elems = append(elems, leaf())
+				}
+			}
+			if c.R.Intn(3) != 0 {
+				id++
+				at := c.R.Intn(len(elems) + 1)
+				elems = append(elems[:at], append([]*gt.T{gt.Call("t", gt.Int(int64(id)), o.Lit())}, elems[at:]...)...)
+			}
+			if c.R.Intn(4) == 0 {
+				return gt.Bin("in", needle, gt.Map(gt.Str("k"), elems[0]))
+			}
+			return gt.Bin("in", needle, gt.List(elems...))
+		case 3:
+			// list / map literals as operands: element evaluation order
+			if c.R.Intn(2) == 0 {
+				return gt.List(tree(d-1), leaf())
+			}
+			return gt.Map(gt.Str("a"), leaf(), gt.Str("b"), tree(d-1))
 		default:
 			op := gen.BinOps[c.R.Intn(len(gen.BinOps))]
 			// bias towards combinations that do not fail at once
